@@ -222,6 +222,7 @@ impl<'a> ProgGen<'a> {
                 })
                 .collect()
         };
-        Program { root, log_rules, pre_ops }
+        let resume = self.g.chance(0.3);
+        Program { root, log_rules, pre_ops, resume }
     }
 }
